@@ -12,7 +12,7 @@
 (* [cp |-> code point] records (non-ASCII characters cannot be written in  *)
 (* TLA+ strings); the driver only concatenates them.                       *)
 (***************************************************************************)
-EXTENDS Integers, Sequences, FiniteSets, TLC, Json, IOUtils
+EXTENDS Integers, Sequences, FiniteSets, TLC, Json, IOUtils, SequencesExt
 
 Corpus == ndJsonDeserialize(IOEnv.CORPUS)
 
@@ -240,6 +240,20 @@ ArgsCase(callee, ix) ==      \* callee: 1 = function, 2 = struct constructor
    parts |-> <<[s |-> IF callee = 1
                       THEN "fn greet(name, greeting = \"hello\") { name .. greeting }\nprintln(greet(" \o args \o "))\n"
                       ELSE "type Gr = { name: string, greeting: string }\nlet g = Gr(" \o args \o ")\nprintln(g.name)\n"]>>]
+
+(* (c4) lambda terms: every closed term of the untyped lambda calculus up to a size (variable 1, abstraction 1 + body,
+        application 1 + function + argument), written with unannotated Abra lambdas.  Most of them have no finite type
+        (self application, fixed-point combinators): what type inference has to refuse without looping *)
+RECURSIVE LamTerms(_, _)
+LamTerms(n, k) ==      \* terms of size n under k binders v0 .. v(k-1), as text
+  IF n < 1 THEN {}
+  ELSE (IF n = 1 THEN {"v" \o ToString(j) : j \in 0..(k - 1)} ELSE {})
+       \cup {"(v" \o ToString(k) \o ") -> " \o b : b \in LamTerms(n - 1, k + 1)}
+       \cup UNION {{"(" \o f \o ")(" \o x \o ")" : f \in LamTerms(i, k), x \in LamTerms(n - 1 - i, k)} : i \in 1..(n - 2)}
+LamSeq(n) == SetToSeq(LamTerms(n, 0))
+LamCase(n, t) ==
+  [id |-> "lam" \o ToString(n) \o "." \o ToString(t), gen |-> "lam", prog |-> "", p |-> 0, op |-> "lam", i |-> n, a |-> t,
+   parts |-> <<[s |-> "let t = " \o LamSeq(n)[t] \o "\nprintln(1)\n"]>>]
 
 (* (d) typing: every prefix of a few short texts that are rich in lexical forms (escapes in strings and characters,
        triple-quoted text, comments, digit separators, floats, operators of two characters): what an editor hands to
